@@ -177,8 +177,10 @@ class Extern(FandangoParty):
         super().__init__(connection_mode=ConnectionMode.EXTERNAL)
 """
 
-B_KINDS = ["star", "plus", "open", "computed", "closed", "nested", "stdlib", "constrained", "io", "helper", "record"]
-A_KINDS = ["stagnate", "stagnate2", "parse", "construct-io", "io-run", "solve", "twin", "namesake", "helper-twin"]
+B_KINDS = ["star", "plus", "open", "computed", "closed", "nested", "stdlib", "constrained", "io", "helper", "record",
+           "ambiguous"]
+A_KINDS = ["stagnate", "stagnate2", "parse", "construct-io", "io-run", "solve", "twin", "namesake", "helper-twin",
+           "construct-many"]
 
 
 def _letters(rng, k: int) -> list[str]:
@@ -237,6 +239,13 @@ def gen_b(rng, kind: str) -> dict:
         b["fuzz"] = dict(fuzz, settings={"extra_constraints": [rng.choice(["small(<n>)", "int(<n>) < LIMIT"])]})
         b["words"] = ["007", "099", "250", "999", "12"]
         b["limit"] = lim
+    elif kind == "ambiguous":
+        # an ambiguous grammar: the ORDER of the trees parse() yields (and the first derivation picked up) must not
+        # depend on how many spec objects were created before (seeded change C18-4: a process-wide counter in node ids)
+        b["text"] = ('<start> ::= <tok>+\n<tok> ::= <hex> | <word> | <num>\n<hex> ::= <h>+\n<word> ::= <w>+\n<num> ::= <d>+\n'
+                     '<h> ::= "a" | "b" | "1"\n<w> ::= "a" | "b" | "z"\n<d> ::= "1" | "2"\n'
+                     'where len(str(<start>)) >= 3\n')
+        b["words"] = ["ab", "a1", "ab1", "1", "abz", "b"]
     elif kind == "record":
         # several non-terminals under a constraint on the enclosing symbol: the search has to mutate failing subtrees
         seps = " | ".join(f'"{c}"' for c in rng.sample(["=", ":", "<", ">", "~"], 4))
@@ -265,7 +274,8 @@ def gen_a(rng, kind: str, b: dict) -> dict:
             steps.append({"do": "construct", "name": f"A{i}", "text": text, "stdlib": False})
             steps.append({"do": "fuzz", "name": f"A{i}", "seed": rng.randint(0, 999), "desired": 1,
                           "gens": rng.choice([3, 4, 5, 6]), "pop": rng.choice([6, 8, 10]),
-                          "settings": rng.choice([{}, {}, {"max_repetition_rate": 1.0}, {"max_repetitions": 64}])})
+                          "settings": rng.choice([{}, {}, {"max_repetition_rate": 1.0}, {"max_repetitions": 64},
+                                                    {"max_repetitions": 3}, {"max_repetitions": 5}])})
     elif kind == "parse":
         ob = gen_b(rng, rng.choice(["star", "open", "nested", "closed"]))
         steps.append({"do": "construct", "name": "A0", "text": ob["text"], "stdlib": False})
@@ -314,6 +324,10 @@ def gen_a(rng, kind: str, b: dict) -> dict:
             if not b["io"]:
                 steps.append({"do": "fuzz", "name": "A0", "seed": rng.randint(0, 999), "desired": 4, "gens": 3, "pop": 8,
                               "settings": {"extra_constraints": ["len(str(<start>)) >= 1"]}})
+    elif kind == "construct-many":
+        for i in range(rng.choice([2, 3, 5])):
+            ob = gen_b(rng, rng.choice(["star", "closed", "nested"]))
+            steps.append({"do": "construct", "name": f"A{i}", "text": ob["text"], "stdlib": False})
     elif kind == "twin":
         steps.append({"do": "construct", "name": "A0", "text": b["text"], "stdlib": b["stdlib"]})
         if b["io"]:
@@ -453,7 +467,9 @@ def plan(run: Run, tier: str) -> list[dict]:
               ("nested", "twin", "B-first"), ("constrained", "solve", "A-first"), ("plus", "io-run", "B-first"),
               ("helper", "helper-twin", "A-first"), ("record", "namesake", "A-first"), ("constrained", "namesake", "A-first"),
               ("helper", "helper-twin", "A-first"), ("record", "namesake", "A-first"), ("record", "namesake", "A-first"),
-              ("record", "namesake", "A-first"), ("record", "namesake", "B-first")]
+              ("record", "namesake", "A-first"), ("record", "namesake", "B-first"),
+              ("ambiguous", "construct-many", "A-first"), ("ambiguous", "construct-many", "A-first"),
+              ("open", "stagnate", "A-first"), ("star", "stagnate2", "A-first")]
     for bk, ak, order in corpus:
         b = gen_b(rng, bk)
         pairs.append({"b": b, "a": gen_a(rng, ak, b), "order": order})
